@@ -6,11 +6,11 @@ from checks import ddcommon
 
 META = {
     "title": "set_var_order: requested order, minimal swaps, functions preserved",
-    "technique": "Rocq proofs about Gallina models of sort_order (permutation, respects the request, minimal number of inversions), bubble sort (adjacent out-of-order swaps only, sorts), the concurrent swap scheduler's no-overlap invariant, and of level_swap/level_down on node tables (BDD kind: loop invariant -> well-formedness, handles and other levels untouched, function of every surviving edge over the variables unchanged; composition set_var_order_model = sort_order + bubble_sort + one level_swap per reported index); correspondence: the extracted level_swap / set_var_order_model are replayed on snapshots of real managers before every level_down / set_var_order and the manager's table afterwards must be isomorphic to the model's (identity on surviving ids, bijection on created nodes); every source/target order of 3 and 4 variables with all (sampled) functions alive, checked by the extracted interpreters on snapshots before/after",
+    "technique": "Rocq proofs about Gallina models of sort_order (permutation, respects the request, minimal number of inversions), bubble sort (adjacent out-of-order swaps only, sorts), the concurrent swap scheduler's no-overlap invariant, and of level_swap/level_down on node tables (BDD and MTBDD kinds: loop invariant -> well-formedness, handles and other levels untouched, function of every surviving edge over the variables unchanged; composition set_var_order_model = sort_order + bubble_sort + one level_swap per reported index); correspondence: the extracted level_swap / set_var_order_model are replayed on snapshots of real managers before every level_down / set_var_order and the manager's table afterwards must be isomorphic to the model's (identity on surviving ids, bijection on created nodes); every source/target order of 3 and 4 variables with all (sampled) functions alive, checked by the extracted interpreters on snapshots before/after",
     "category": "proof",
     "design_ref": "DESIGN.md section 5, C08; notes/C08b.md",
-    "level_text": "Theorems (coq/Props/C08.v, 28, all closed under the global context). Order computation: sort_order is a permutation, respects the request, minimises inversions, keeps unnamed levels in order; bubble sort performs only adjacent strictly-out-of-order swaps and sorts; the concurrent scheduler never runs two swaps sharing a level. Swap itself, for the BDD kind and every well-formed table s and adjacent levels i, i+1 (Mgr/LevelSwap*.v): level_swap s i is well-formed again (C08_level_swap_wf), the maps are the old ones with the two levels exchanged (C08_level_swap_maps), the handle list is unchanged and every handle's node keeps its id (C08_level_swap_handles), nodes of the other levels keep id/level/children and nothing appears there (C08_level_swap_untouched), only unreferenced nodes of the old lower level disappear (C08_level_swap_removed_only), every edge stored before and after denotes the same Boolean function of the VARIABLES (C08_level_swap_sem_vars; C08_level_swap_handles_vars for handles). Composition (C08_set_var_order_model_correct/_respects/_canonical): sort_order + bubble_sort + one level swap per reported index yields a well-formed, canonical table in which every handle denotes the same function, every variable sits on the level sort_order assigns and the named variables are in the requested relative order, with inv(target) swaps. Tie to the code: harness op LEVELDOWN i = oxidd_reorder::level_down under Manager::reorder; on BDD managers the driver replays every single swap (all 256 functions of 3 variables alive x both positions, with and without dead nodes, subsets where nodes lose their last reference, chains of swaps on random 4..6-variable tables) and every set_var_order/set_var_order_seq on tables without empty levels (up to 1200 nodes) on the extracted model and demands a table isomorphic to the manager's (same maps, same handle edges, identity on surviving node ids, bijection on created nodes, same levels/stored levels/children). For BCDD, ZBDD (and MTBDD/TDD through C10/C11's runs) the swap is covered by correspondence only: lifting the manager before and after every set_var_order / level_down of the explored space (all 6 source orders x all 12 total/partial targets for 3 variables with all 256 functions alive, sampled for 4 variables, random orders on 5..7 variables, chains mixed with operations and gc; sequential and pool variants) and evaluating the extracted checkers: requested relative order holds, number of adjacent swaps (inversions w.r.t. the previous order) equals the optimum computed independently, var/level maps inverse, value tables unchanged, wf_full_b (reported under C08 after a reordering), rc audit, re-derived functions equal the old handles.",
-    "level_note": "Trusted: Coq kernel, extraction, OCaml driver (incl. its isomorphism test ocaml/lswap.ml and its independent optimum computation for the swap count), Rust harness. Proved for the BDD kind only (binary nodes, no complement tags); BCDD/ZBDD/MTBDD/TDD level swaps are checked on the real code by snapshots, not proved. Modelled: level_down on ADJACENT levels with the level numbers updated after each swap; not modelled: the lazy renumbering (to_pre) and the empty-level shortcut of set_var_order_common (non-adjacent swaps of non-empty levels followed by a linear pass for the empty ones) -- reorderings of tables with an empty level are therefore compared by the snapshot audits only; reference counters inside level_swap are not modelled (audited exactly on every snapshot by C05's checker); the iteration order of the unique table is not modelled (result identical up to the ids of created nodes, which is what the isomorphism allows). The segment tree is tied to the naive model only by correspondence. Out-of-memory inside level_swap aborts the process by documented design and is outside the recoverable set. The concurrent bubble sort needs >= 65536 nodes and several workers: exercised in the thorough tier only, and not replayed on the model (no fixed swap order).",
+    "level_text": "Theorems (coq/Props/C08.v, 28, all closed under the global context). Order computation: sort_order is a permutation, respects the request, minimises inversions, keeps unnamed levels in order; bubble sort performs only adjacent strictly-out-of-order swaps and sorts; the concurrent scheduler never runs two swaps sharing a level. Swap itself, for the BDD and MTBDD kinds (binary nodes, no complement tags, rule 'children equal') and every well-formed table s and adjacent levels i, i+1 (Mgr/LevelSwap*.v): level_swap s i is well-formed again (C08_level_swap_wf), the maps are the old ones with the two levels exchanged (C08_level_swap_maps), the handle list is unchanged and every handle's node keeps its id (C08_level_swap_handles), nodes of the other levels keep id/level/children and nothing appears there (C08_level_swap_untouched), only unreferenced nodes of the old lower level disappear (C08_level_swap_removed_only), every edge stored before and after denotes the same Boolean function of the VARIABLES (C08_level_swap_sem_vars; C08_level_swap_handles_vars for handles). Composition (C08_set_var_order_model_correct/_respects/_canonical): sort_order + bubble_sort + one level swap per reported index yields a well-formed, canonical table in which every handle denotes the same function, every variable sits on the level sort_order assigns and the named variables are in the requested relative order, with inv(target) swaps. Tie to the code: harness op LEVELDOWN i = oxidd_reorder::level_down under Manager::reorder; on BDD and MTBDD managers the driver replays every single swap (all 256 functions of 3 variables alive x both positions, with and without dead nodes, subsets where nodes lose their last reference, chains of swaps on random 4..6-variable tables; MTBDD: all 81 functions of 2 variables over 3 values, random 3..5-variable tables) and every set_var_order/set_var_order_seq on tables without empty levels (up to 1200 nodes) on the extracted model and demands a table isomorphic to the manager's (same maps, same handle edges, identity on surviving node ids, bijection on created nodes, same levels/stored levels/children). For BCDD, ZBDD (and TDD through C11's runs) the swap is covered by correspondence only: lifting the manager before and after every set_var_order / level_down of the explored space (all 6 source orders x all 12 total/partial targets for 3 variables with all 256 functions alive, sampled for 4 variables, random orders on 5..7 variables, chains mixed with operations and gc; sequential and pool variants) and evaluating the extracted checkers: requested relative order holds, number of adjacent swaps (inversions w.r.t. the previous order) equals the optimum computed independently, var/level maps inverse, value tables unchanged, wf_full_b (reported under C08 after a reordering), rc audit, re-derived functions equal the old handles.",
+    "level_note": "Trusted: Coq kernel, extraction, OCaml driver (incl. its isomorphism test ocaml/lswap.ml and its independent optimum computation for the swap count), Rust harness. Proved for the BDD and MTBDD kinds (binary nodes, no complement tags); BCDD/ZBDD/TDD level swaps are checked on the real code by snapshots, not proved. Modelled: level_down on ADJACENT levels with the level numbers updated after each swap; not modelled: the lazy renumbering (to_pre) and the empty-level shortcut of set_var_order_common (non-adjacent swaps of non-empty levels followed by a linear pass for the empty ones) -- reorderings of tables with an empty level are therefore compared by the snapshot audits only; reference counters inside level_swap are not modelled (audited exactly on every snapshot by C05's checker); the iteration order of the unique table is not modelled (result identical up to the ids of created nodes, which is what the isomorphism allows). The segment tree is tied to the naive model only by correspondence. Out-of-memory inside level_swap aborts the process by documented design and is outside the recoverable set. The concurrent bubble sort needs >= 65536 nodes and several workers: exercised in the thorough tier only, and not replayed on the model (no fixed swap order).",
 }
 ALLOWED_AXIOMS = ()
 
@@ -71,6 +71,28 @@ def case_swaps(cid, kind, nv, funcs, positions, rng, source=None, gc_first=False
     return (ddgen.header(cid, kind), ops)
 
 
+def case_swaps_mt(cid, nv, tables, positions, rng, orders=(), gc_first=False):
+    """MTBDD (i64 terminals): single level swaps and whole reorderings between snapshots, replayed by the driver
+    on the same extracted model as for BDDs (the theorems cover both kinds)"""
+    ops = [f"VARS {nv}"]
+    for i, tb in enumerate(tables):
+        ops.append(f"VT h{i} {nv} " + " ".join(tb))
+    if gc_first:
+        ops.append("GC")
+    ops.append("SNAP")
+    for p in positions:
+        ops.append(f"LEVELDOWN {p}")
+        ops.append("SNAP")
+    for o in orders:
+        ops.append(f"{rng.choice(['ORDER', 'ORDERSEQ'])} " + " ".join(map(str, o)))
+        ops.append("SNAP")
+    for i in rng.sample(range(len(tables)), min(len(tables), 6)):
+        ops.append(f"EVAL h{i}")
+    ops.append("SNAP")
+    ops += ["DROPALL", "GC", "SNAP"]
+    return (ddgen.header(cid, "mtbdd"), ops)
+
+
 def gen_cases(ctx):
     rng = random.Random(ctx.seed * 7919 + 8)
     thorough = ctx.tier == "thorough"
@@ -118,6 +140,21 @@ def gen_cases(ctx):
             src = list(range(nv)); rng.shuffle(src)
             cases.append(case_swaps(f"s{cid}", kind, nv, funcs, [rng.randrange(nv - 1) for _ in range(rng.randrange(1, 10))], rng,
                                     source=src if rng.random() < 0.5 else None, gc_first=rng.random() < 0.6)); cid += 1
+    # MTBDD: all 81 functions of 2 variables over 3 values alive, random tables of 3..5 variables
+    import itertools
+    for k in range(6 if thorough else 2):
+        vals = rng.sample(ddgen.MT_VALUES, 3)
+        tabs = [list(tb) for tb in itertools.product(vals, repeat=4)]
+        cases.append(case_swaps_mt(f"m{cid}", 2, tabs, [0, 0, 0], rng, orders=[(1, 0), (0, 1)], gc_first=(k % 2 == 1))); cid += 1
+    for _ in range(80 if thorough else 12):
+        nv = rng.randrange(3, 6)
+        tabs = [ddgen.mt_rand_vt(rng, nv) for _ in range(rng.randrange(1, 10))]
+        ords = []
+        for _ in range(rng.randrange(0, 4)):
+            p = list(range(nv)); rng.shuffle(p)
+            ords.append(p[: rng.randrange(2, nv + 1)])
+        cases.append(case_swaps_mt(f"m{cid}", nv, tabs, [rng.randrange(nv - 1) for _ in range(rng.randrange(1, 8))], rng,
+                                   orders=ords, gc_first=rng.random() < 0.6)); cid += 1
     return cases
 
 
@@ -126,7 +163,7 @@ def run(ctx):
     # every fourth case also on the debug-profile harness (debug assertions of level_swap etc.)
     ddcommon.run_dd(
         ctx, ["C08"], cases, debug_cases=cases[::4] if ctx.tier != "thorough" else cases[::2],
-        rule="a quarter of the cases (half in thorough) and the corpus are run a second time on a debug-profile build of /repo (debug assertions, overflow checks); per kind (bdd, bcdd, zbdd): single level swaps (LEVELDOWN i with a snapshot before and after: all 256 functions of 3 variables alive x both positions x with/without dead nodes, chains of 6 swaps from sampled source orders, 1..11 sampled functions alive so that nodes lose their last reference, chains of 1..9 swaps on random tables of 4..6 variables; on bdd every swap is replayed on the extracted level_swap and the tables must be isomorphic); every set_var_order on a bdd table without empty levels and <= 1200 nodes is replayed on the extracted set_var_order_model likewise; for 3 variables every source order (2 in quick) x all 12 total and partial target orders with all 256 functions alive, each followed by re-derivation, optional gc and the way back; 4 variables with 48 sampled functions and sampled targets; 5..7 variables with random functions and orders; random histories mixing reorderings with operations and gc; set_var_order and set_var_order_seq, 1/2/4/8 workers. non-trivial = case with >= 3 ops",
+        rule="a quarter of the cases (half in thorough) and the corpus are run a second time on a debug-profile build of /repo (debug assertions, overflow checks); per kind (bdd, bcdd, zbdd): single level swaps (LEVELDOWN i with a snapshot before and after: all 256 functions of 3 variables alive x both positions x with/without dead nodes, chains of 6 swaps from sampled source orders, 1..11 sampled functions alive so that nodes lose their last reference, chains of 1..9 swaps on random tables of 4..6 variables; on bdd every swap is replayed on the extracted level_swap and the tables must be isomorphic); mtbdd: the 81 functions of 2 variables over 3 sampled values and random tables of 3..5 variables, swaps and reorderings replayed likewise; every set_var_order on a bdd/mtbdd table without empty levels and <= 1200 nodes is replayed on the extracted set_var_order_model likewise; for 3 variables every source order (2 in quick) x all 12 total and partial target orders with all 256 functions alive, each followed by re-derivation, optional gc and the way back; 4 variables with 48 sampled functions and sampled targets; 5..7 variables with random functions and orders; random histories mixing reorderings with operations and gc; set_var_order and set_var_order_seq, 1/2/4/8 workers. non-trivial = case with >= 3 ops",
         allowed_axioms=ALLOWED_AXIOMS)
 
 
